@@ -8,6 +8,7 @@ import ast
 
 from .. import astutil as A
 from ..fa import FA
+from .valeq import check_typed_identity
 from .c16 import sibling_reference_sites
 from .ladders import extract_ladder, check_ladder_order, repo_subclass_pairs, handler_ladder
 from . import partition_model as PM
@@ -95,7 +96,14 @@ def check_run_record_replay(ck, R):
     # (a)
     t_exists = [n.id for n in cfg.nodes if n.kind == "test" and A.norm(n.ast) == "existing_memento"]
     t_valid = [n.id for n in cfg.nodes if n.kind == "test" and A.norm(n.ast).endswith(".valid_result")]
-    lookups = rl.nodes_all([c for c in rl.calls("get_memento")])
+    lookup_calls = [c for c in rl.calls("get_memento")]
+    lookups = rl.nodes_all([c for c in lookup_calls if rl.unconditional(c)])
+    cond_lookups = [c for c in lookup_calls if not rl.unconditional(c)]
+    for c in cond_lookups:
+        ck.ob(R, rl.key(c, "lookup-unconditional"), False,
+              "the store lookup inside memento_run_local is evaluated only under a condition (`%s`): an invocation whose result was memoized "
+              "between a caller's earlier query and this point (duplicate in a batch, callee of an earlier element, another thread) runs its body again"
+              % A.short(rl.pm.get(c), 70), rl.where(c))
     ok = bool(t_exists) and bool(t_valid) and bool(lookups)
     if ok:
         live = cfg.reach([cfg.entry], edge_ok=lambda s, d, l: not ((s in t_exists or s in t_valid) and l == "F"))
@@ -298,3 +306,4 @@ def check(ck):
                       "base.py passes the function's own context args", 6)
     sibling_reference_sites(ck, "C02.R5")
     check_frame_rule(ck, "C02.R6")
+    check_typed_identity(ck, "C02.R7", ("storage_base", "metadata", "runner_local", "runner"))
